@@ -73,7 +73,9 @@ Definition run_wn_k (K : consts) (c : wn_case) : result (list (list triplet) * l
   | (ew, sc, per, gd, G, t, fs) =>
     let ps := mkWN ew sc per G (q_sub (c_wn_cut K) gd) (c_wn_const K) in
     let pl := mkWN ew sc per G (q_add (c_wn_cut K) gd) (c_wn_const K) in
-    match wernet_nilsson ps t fs, wernet_nilsson pl t fs with
+    (* strict: certainly inside the cone with the apex pulled in by the guard; lenient: possibly inside the
+       cone with the apex pushed out (rigorous enclosures, Hbond/WnR.v) *)
+    match wernet_nilsson_with wn_sure ps t fs, wernet_nilsson_with wn_maybe pl t fs with
     | Ok s, Ok l => Ok (s, l)
     | _, _ => ErrNoBonds
     end
